@@ -450,6 +450,26 @@ func (r *Runner) replayObligation(prop string, o *Obligation) (*ReplayRecord, st
 		return rec, path
 	}
 	fc := o.fc
+	if fc != nil && o.GroundTest != "" {
+		// ground obligation: the same fact is checked on the real package at run time
+		rec.Test = "package " + fc.pkg.Types.Name() + "\n\nimport (\n\t\"fmt\"\n\t\"testing\"\n)\n\nfunc TestVrfReplay(t *testing.T) {\n\t" + o.GroundTest + "\n}\n"
+		rec.TestPkg = fc.pkg.PkgPath
+		out, cmdline := runOverlayTest(r.w.RepoDir, fc.pkg.PkgPath, rec.Test, "TestVrfReplay")
+		rec.Command = cmdline
+		rec.Output = truncate(out, 3000)
+		if strings.Contains(out, "VRF-RESULT VIOLATED") {
+			rec.Verdict = "confirmed"
+			for _, l := range strings.Split(out, "\n") {
+				if strings.HasPrefix(l, "VRF-RESULT VIOLATED") {
+					rec.Reason = "the real package shows the violation: " + strings.TrimPrefix(l, "VRF-RESULT VIOLATED ")
+				}
+			}
+		} else {
+			rec.Verdict = "not-reproduced"
+			rec.Reason = "the run-time check of the same fact on the real package holds"
+		}
+		return save()
+	}
 	if fc == nil || fc.decl == nil {
 		rec.Verdict = "no-model"
 		rec.Reason = "solver answered " + o.Status + " (not a function obligation)"
